@@ -108,9 +108,18 @@ where
       if idle {
         let delay = (self.duration_selector)(&value);
         if self.edge.leading {
-          // The leading item must not be emitted again on the trailing edge.
-          self.trailing_value.rc_deref_mut().take();
-          self.observer.next(value)
+          if self.edge.tailing {
+            // The leading item must not be emitted again on the trailing edge.
+            // It was stored above: if the window's timer, running on another
+            // thread, has delivered it in the meantime, it must not be
+            // delivered a second time here either.
+            let stored = self.trailing_value.rc_deref_mut().take();
+            if let Some(value) = stored {
+              self.observer.next(value)
+            }
+          } else {
+            self.observer.next(value)
+          }
         }
         let task = OnceTask::new(
           throttle_task,
